@@ -8,6 +8,7 @@ import TexelVerif.Drv.Book
 import TexelVerif.Drv.BookBuild
 import TexelVerif.Drv.Csp
 import TexelVerif.Drv.Pos
+import TexelVerif.Drv.TB
 /-! Line-protocol driver: one operation per stdin line, one canonical reply line.
     Imports model files only (no proofs, no Mathlib), so it links as a `lean_exe`. -/
 
@@ -33,6 +34,7 @@ def dispatch (st : DrvState) (line : String) : DrvState × String :=
   | "csp" :: args => (st, Drv.Csp.solveLine args)
   | "bs" :: args => (st, Drv.Csp.bitset args)
   | "pos" :: args => let (p, o) := Drv.Pos.step st.pos args; ({ st with pos := p }, o)
+  | "tb" :: args => (st, Drv.TB.step args)
   | _ => (st, "bad-op")
 
 partial def loop (h : IO.FS.Stream) (out : IO.FS.Stream) (st : DrvState) : IO Unit := do
@@ -42,7 +44,9 @@ partial def loop (h : IO.FS.Stream) (out : IO.FS.Stream) (st : DrvState) : IO Un
   out.putStrLn o
   loop h out st'
 
-def main : IO Unit := do
+def main (args : List String) : IO UInt32 := do
+  if !args.isEmpty then return (← Drv.TB.mainArgs args)   -- command-line modes (C12: need a table file)
   let out ← IO.getStdout
   loop (← IO.getStdin) out {}
   out.flush
+  return 0
